@@ -209,10 +209,17 @@ fn one_case(run: &Run, case: u64) {
     let outside0 = watch(&sb.outside);
     let src0 = watch(&sb.src);
     for (si, (subtree, excl)) in selections.iter().enumerate() {
-        for dest_state in ["absent", "empty", "populated", "populated+overwrite"] {
+        for dest_state in ["absent", "empty", "populated", "populated+overwrite", "populated-dotnames"] {
             let dest = sb.work.join(format!("dest{si}{}", dest_state.len()));
             match dest_state {
                 "empty" => std::fs::create_dir_all(&dest).unwrap(),
+                "populated-dotnames" => {
+                    // everything that is there has a name starting with a dot: still not empty
+                    std::fs::create_dir_all(dest.join(".config")).unwrap();
+                    std::fs::write(dest.join(".config/settings"), b"already here").unwrap();
+                    std::fs::write(dest.join(".hidden"), b"keep me").unwrap();
+                    let _ = std::os::unix::fs::symlink("../../outside/dir", dest.join(".l"));
+                }
                 "populated" | "populated+overwrite" => {
                     std::fs::create_dir_all(dest.join("pre/sub")).unwrap();
                     std::fs::write(dest.join("pre/sub/file"), b"already here").unwrap();
@@ -242,7 +249,7 @@ fn one_case(run: &Run, case: u64) {
                 run.violation("restore-modified-source-tree", d, rp);
                 return;
             }
-            if dest_state == "populated" {
+            if dest_state == "populated" || dest_state == "populated-dotnames" {
                 run.count("refusals_checked", 1);
                 let refused = matches!(&r.result, Some(Err(e)) if e.contains("not empty"));
                 if !refused {
@@ -546,7 +553,7 @@ pub fn run(tier: Tier, replay: Option<Value>) -> i32 {
         &[("restores_watched", 100), ("refusals_checked", 20), ("symlinks_in_sources", 100), ("stitched_versions_with_entries_below_a_symlink", 3), ("stitched_from_three_bands_with_entries_below_a_symlink", 1), ("overwrite_restores_meeting_links_left_by_the_earlier_version", 50)]
     };
     run.finish(
-        "sandbox {outside/{file,dir/{f,g,sub/h}}, work/{src,arch,dest}}; generated source trees whose symlinks point at the sentinels beside the destination (relative at several depths, absolute), at '..', '../..', '.', '/', other entries of the tree, nothing, and names that do not exist in directories that do exist beside the destination (dangling links through which a file could be created); each version is restored with 4 selections (all, a subtree, two exclusion sets) x destination {absent, empty, pre-populated, pre-populated + overwrite}; before and after every restore a recursive lstat + content + ctime snapshot of outside/ and of the source must be identical; a pre-populated destination without overwrite must be refused and left identical (incl. ctime). Second part: successive restores into one destination: version A with links to the sentinels, version B in which every such link has become a directory (with children named like the sentinel directory's) or a file; A is restored into a fresh directory and B over it with overwrite (whole, and only a subtree below a former link), and the reverse order; outside/ must stay identical. Third part: versions stitched from a backup killed at every write point after a directory was replaced by a symlink to outside/dir (the link's own mtime being ordinary, within the last second before the epoch, at it, or far from it) (entries of the older band then lie below the link); in every second scenario another version lies in between, killed at one of its last write points, in which the directory's subdirectory is gone and later-sorting siblings have appeared, so that the final version is stitched from three bands and the oldest contributes an entry whose parent directory is not listed. Non-trivial = tree with >= 2 symlinks / stitched version with entries below a symlink.",
+        "sandbox {outside/{file,dir/{f,g,sub/h}}, work/{src,arch,dest}}; generated source trees whose symlinks point at the sentinels beside the destination (relative at several depths, absolute), at '..', '../..', '.', '/', other entries of the tree, nothing, and names that do not exist in directories that do exist beside the destination (dangling links through which a file could be created); each version is restored with 4 selections (all, a subtree, two exclusion sets) x destination {absent, empty, pre-populated, pre-populated + overwrite, pre-populated with dot-named entries only}; before and after every restore a recursive lstat + content + ctime snapshot of outside/ and of the source must be identical; a pre-populated destination without overwrite must be refused and left identical (incl. ctime). Second part: successive restores into one destination: version A with links to the sentinels, version B in which every such link has become a directory (with children named like the sentinel directory's) or a file; A is restored into a fresh directory and B over it with overwrite (whole, and only a subtree below a former link), and the reverse order; outside/ must stay identical. Third part: versions stitched from a backup killed at every write point after a directory was replaced by a symlink to outside/dir (the link's own mtime being ordinary, within the last second before the epoch, at it, or far from it) (entries of the older band then lie below the link); in every second scenario another version lies in between, killed at one of its last write points, in which the directory's subdirectory is gone and later-sorting siblings have appeared, so that the final version is stitched from three bands and the oldest contributes an entry whose parent directory is not listed. Non-trivial = tree with >= 2 symlinks / stitched version with entries below a symlink.",
         &["ctime comparison detects chmod/chown/utimes through a link even when values are unchanged", "links in a pre-populated destination are generated only by restoring another version of the same archive into it (the statement scopes hostile input to symlinks the source contained)"],
         None,
         needs,
